@@ -114,15 +114,26 @@ func evaluate(s *wscript) verdict {
 			defs["no-finish-write"] = true
 		}
 	}
+	brokenTail := false
 	if finishedAt >= 0 {
 		decoded := payload
 		if s.comp == remoteexecution.Compressor_ZSTD {
 			d, err := zstdStreamDecode(payload)
-			if err != nil {
+			switch {
+			case err == nil:
+				decoded = d
+			case s.nameD == s.obj.d && bytes.Equal(d, s.obj.data):
+				// The stream decodes to exactly the object and breaks only
+				// after that (a truncated or garbage tail; for the empty object:
+				// any broken stream). What is stored would match the digest, so
+				// the statement is not violated either way: ambiguous.
+				// (casValidatingReader accepts such a tail when the decoder
+				// reports it as io.ErrUnexpectedEOF.)
+				decoded = d
+				brokenTail = true
+			default:
 				defs["zstd-stream-invalid"] = true
 				decoded = nil
-			} else {
-				decoded = d
 			}
 		}
 		if !defs["zstd-stream-invalid"] {
@@ -151,6 +162,8 @@ func evaluate(s *wscript) verdict {
 	}
 	v := verdict{kind: "valid", payloadBytes: int64(len(payload))}
 	switch {
+	case brokenTail:
+		v.kind, v.why = "ambiguous", "zstd-stream-broken-after-complete-data"
 	case finishedAt < len(s.msgs)-1:
 		v.kind, v.why = "ambiguous", "messages-after-finish"
 	case s.termErr != nil:
@@ -586,6 +599,11 @@ func checkWrite(c *run.Case, w *run.Worker, engine string, s *wscript, v verdict
 		}
 	case "ambiguous":
 		w.Count("write_ambiguous_"+v.why, 1)
+		if engine == "wire" && s.termErr != nil {
+			// The client cancelled after its finishing message: what it sees
+			// (CANCELLED) says nothing about what the server decided.
+			break
+		}
 		if okRPC {
 			w.Count("write_ambiguous_accepted_"+compName(s.comp), 1)
 			if !has {
